@@ -141,11 +141,11 @@ def job_colnorm(sp, cfall, tier):
 
 def main(tier):
     run = check.Run(PID, tier)
-    check.JOB_BUDGET[0] = 400 if tier == "quick" else 3000
+    check.JOB_BUDGET[0] = 400 if tier == "quick" else 1500
     cf = cfgs(tier)
     check.run_jobs([(_compile, (cf, tier))])
     jobs = [(job_ldlt, (c, cf, tier)) for c in cf] + [(job_trust, (1, cf, tier))] + ([(job_trust, (2, cf, tier))] if tier == 'thorough' else []) + [ (job_colnorm, (0, cf, tier)), (job_colnorm, (1, cf, tier))]
-    run.extend(check.run_jobs(jobs, timeout=1200 if tier == "quick" else 3000))
+    run.extend(check.run_jobs(jobs, timeout=1200 if tier == "quick" else 1800))
     run.bounds += ["(rows, cols, storage 0=static 1=dynamic 2=sparse): %s ; J, r fully symbolic (rank-deficient J included), d >= 1e-6 (the clamp minimize applies), lambda, Delta in [1e-6, 1e6]" % cf]
     run.assumptions += ["layer R: exact arithmetic; the 1e-8 backward error, the cond<=1e8 dense/sparse agreement and sizes up to 40x40 are floating-point statements outside the claim",
                         "Eigen's pivoting LDLT is executed symbolically: every pivot order is a path"]
